@@ -211,6 +211,17 @@ def make_clean(rng, env, style, cfg=None):
             return None
         streams = runner.stream_of(rc)[0]
         if not rc["end"]["exit"] and streams["o"].strip() == "" and streams["e"].strip() == "":
+            if cfg and cfg.get("skip_phase") and rng.random() < 0.8:
+                # give the skipped phases something to hide: edits that only rules of those phases
+                # object to, planted AFTER cleaning (the tree's own --fix is not trusted to leave
+                # them alone) and kept only if the report stays empty under the configuration
+                planted = workload.plant_violations(rng, new, 0.3, phases=set(cfg["skip_phase"]))
+                if planted != new:
+                    c3 = _desc(0, rng, [workload.sb_entry(name, planted)] + extra, ["-p", "1", "-ap", "-of", "syntastic"] + opts + ["-f", name], {})
+                    r3 = env.run(c3)
+                    s3 = runner.stream_of(r3)[0]
+                    if r3["status"] == "exit" and not r3["end"]["exit"] and s3["o"].strip() == "" and s3["e"].strip() == "":
+                        return label + "+hidden-violations", planted
             if rng.random() < 0.5:
                 # the same clean design with layout noise inside a code-tag region: still reported
                 # violation-free (verified by is_clean in judge), so still "no fixable violation"
@@ -341,7 +352,7 @@ def judge(desc, env):
 
 def plan(tier, seed):
     if tier == "quick":
-        na, nb, nc = 260, 90, 50
+        na, nb, nc = 250, 90, 70
     else:
         na, nb, nc = 6000, 2500, 1500
     jobs = []
